@@ -145,6 +145,41 @@ func init() {
 		ex.conc.blockedV[name] = v
 		return v
 	}
+	I[rtPkg+"GoCount"] = func(ex *Exec, a []Value) Value {
+		return ex.ts.IntS(SInt(64, true), int64(len(ex.deferredGo)))
+	}
+	I[rtPkg+"RunGo"] = func(ex *Exec, a []Value) Value {
+		i := a[0].(*Term)
+		if !i.IsConst() || int(i.SignedVal()) >= len(ex.deferredGo) {
+			panic(pathEnd{"RunGo: no such goroutine"})
+		}
+		nframes, depth := len(ex.frames), ex.depth
+		func() {
+			defer func() {
+				if r := recover(); r != nil {
+					if _, ok := r.(goBlocked); ok {
+						ex.frames = ex.frames[:nframes]
+						ex.depth = depth
+						ex.ghost["rungo.blocked"] = true
+						return
+					}
+					panic(r)
+				}
+			}()
+			ex.deferredGo[i.SignedVal()]()
+		}()
+		return nil
+	}
+	I[rtPkg+"Recorded"] = func(ex *Exec, a []Value) Value {
+		n, _ := ex.ghost[a[0].(string)].(int)
+		return ex.ts.IntS(SInt(64, true), int64(n))
+	}
+	I[rtPkg+"RecordedLast"] = func(ex *Exec, a []Value) Value {
+		if t, ok := ex.ghost[a[0].(string)+".last"].(*Term); ok {
+			return ex.ts.Conv(t, SInt(64, true))
+		}
+		return ex.ts.IntS(SInt(64, true), -1)
+	}
 	I[rtPkg+"Spawn"] = func(ex *Exec, a []Value) Value {
 		ex.spawn(a[0].(string), a[1].(*Closure))
 		return nil
@@ -352,6 +387,24 @@ func init() {
 	I[gmp+"GetOrRegisterTimer"] = opq("timer")
 	I[gmp+"GetOrRegisterCounter"] = opq("counter")
 	I[gmp+"GetOrRegisterGaugeFloat64"] = opq("gauge")
+	ddp := "(*github.com/DataDog/datadog-go/v5/statsd.Client)."
+	for _, m := range []string{"Distribution", "TimeInMilliseconds", "Count", "Gauge"} {
+		m := m
+		I[ddp+m] = func(ex *Exec, a []Value) Value {
+			name, _ := a[1].(string)
+			k := "statsd:" + m + ":" + name
+			n, _ := ex.ghost[k].(int)
+			ex.ghost[k] = n + 1
+			if t, ok := a[2].(*Term); ok {
+				if t.Sort.Kind == KFloat {
+					ex.ghost[k+".last"] = ex.f2iNoCheck(t)
+				} else {
+					ex.ghost[k+".last"] = t
+				}
+			}
+			return &IfaceV{}
+		}
+	}
 	registerSyncIntrinsics()
 }
 
@@ -392,6 +445,9 @@ func (ex *Exec) opaqueMethod(o *OpaqueV, name string, args []Value) Value {
 		ex.ghost[k] = n + 1
 		if len(args) > 0 {
 			ex.ghost[k+".last"] = args[0]
+		}
+		if o.Str != "" && name == "Update" && strings.HasPrefix(o.Str, "gauge") {
+			return nil
 		}
 		return nil
 	}
